@@ -4,6 +4,9 @@ import (
 	"fmt"
 	"runtime/debug"
 
+	corev1 "k8s.io/api/core/v1"
+	netv1 "k8s.io/api/networking/v1"
+
 	"k8s.io/apimachinery/pkg/runtime"
 
 	"github.com/np-guard/netpol-analyzer/pkg/manifests/fsscanner"
@@ -113,3 +116,25 @@ func (e *Engine) Check(src, dst, proto, port string) CallResult {
 
 func (e *Engine) CacheHits() int { return e.PE.VerifCacheHits() }
 func (e *Engine) CacheLen() int  { return e.PE.VerifCacheLen() }
+
+// SetResources calls the (deprecated, still exported) bulk setter with the NetworkPolicies, Pods and Namespaces among objs;
+// it returns the objects it could not pass (other kinds), which the caller inserts one by one.
+func (e *Engine) SetResources(objs []runtime.Object) (CallResult, []runtime.Object) {
+	var nps []*netv1.NetworkPolicy
+	var pods []*corev1.Pod
+	var nss []*corev1.Namespace
+	rest := []runtime.Object{}
+	for _, o := range objs {
+		switch t := o.(type) {
+		case *netv1.NetworkPolicy:
+			nps = append(nps, t)
+		case *corev1.Pod:
+			pods = append(pods, t)
+		case *corev1.Namespace:
+			nss = append(nss, t)
+		default:
+			rest = append(rest, o)
+		}
+	}
+	return guard(func() error { return e.PE.SetResources(nps, pods, nss) }), rest
+}
